@@ -23,6 +23,15 @@ CHECKS = {
                      "(function + injectivity over the whole run, across restarts).",
                 nontrivial_rule="a history counts if a live nameplate was claimed again or a new incarnation was created; distinct by history hash.",
                 floors={"quick": {"c03_first_claim": 200, "c03_same_id": 50, "c03_fresh_id": 200}}),
+    "C04": dict(module="mon.checks.c04", level="exploration", exhaustive=False,
+                rule="Allocate-heavy random histories (explicit claims of numeric, zero-padded, space-padded, 4-digit and non-numeric names, releases, "
+                     "closes, sweeps; listing allowed and disallowed), hole-punching scenarios at the 1-, 2- and 3-digit level and a real 999-claim fill; "
+                     "every `allocated` frame judged at emission (free before the command per independent reader, shortest length, held by the allocating side, "
+                     "no open transaction). In each reached state every outcome of the random choice is driven through the real _find_available_nameplate_id "
+                     "(exhaustive over the choice set, per state).",
+                nontrivial_rule="a history counts if an allocate was answered; distinct by history hash.",
+                floors={"quick": {"c04_allocate": 1000, "c04_choice_outcome": 20000, "c04_choice_states": 1000, "c04_refill_exact": 2,
+                                  "c04_long_allocations": 20, "c09_emit_allocated": 1000}}),
     "C05": dict(module=H, level="exploration",
                 rule="Same engine, 5 sides on 1-2 nameplates/mailboxes of one app; every touch of a third or later side judged by the admitted-sides oracle.",
                 nontrivial_rule="a history counts if a third side touched a mailbox; distinct by history hash.",
@@ -35,6 +44,25 @@ CHECKS = {
                 rule="Same engine; every close judged by close-completes + lifetime oracle and the frame rule on mailbox rows.",
                 nontrivial_rule="a history counts if a close left another opener or deleted the mailbox; distinct by history hash.",
                 floors={"quick": {"c08_close_completes": 100, "c08_deleted_after_last_close": 50, "c08_survives_other_open": 5}}),
+    "C09": dict(module="mon.checks.c09", level="fault_enumeration",
+                rule="A crash point right after every outbound frame of directed and random histories (with and without usage db): at each emission "
+                     "the hook asserts that no server db connection is inside a transaction and that an independent read-only connection already sees "
+                     "what the frame acknowledges (allocated/claimed/released/closed/message); every 7th acknowledging frame the files and hot journals "
+                     "are copied at that instant, re-opened with plain sqlite3 (real recovery) and judged by the same oracle; PRAGMA synchronous=FULL and "
+                     "journal_mode=DELETE are read from the server's connections after every (re)start.",
+                nontrivial_rule="a history counts if an acknowledging frame was judged at emission; distinct by history hash.",
+                level_text="Fault enumeration by runtime monitoring: one crash point per outbound frame of every executed history, decided by an oracle "
+                           "running inside the send hook of the real server; sampled crash images confirm the reader-based verdicts on real file bytes.",
+                floors={"quick": {"c09_no_txn_at_frame": 100000, "c09_emit_message": 1000, "c09_emit_claimed": 1000, "c09_emit_released": 500,
+                                  "c09_emit_closed": 500, "c09_emit_allocated": 200, "c09_crash_image_checked": 1000, "c09_pragmas": 2000}}),
+    "C13": dict(module="mon.checks.c13", level="exploration",
+                rule="General random histories (3 apps, 4 sides, reopen-after-close, crowding, protocol errors, restarts) followed by all clients leaving and "
+                     "expiry + 2 periods of virtual time through the real TimerService: per-sweep must-be-gone oracle, store-empty oracle, sweeps-per-lifetime "
+                     "monitor; 1 in 5 histories with the first db access of sweeps 2, 3 and a later one failing (sqlite shim raising 'database is locked'), "
+                     "1 in 25 with a second connection really holding BEGIN EXCLUSIVE across the timer instant, 1 in 25 running 50 further periods.",
+                nontrivial_rule="a history counts if a sweep met an idle channel that had to be gone or the quiescence oracle ran; distinct by history hash.",
+                floors={"quick": {"c13_must_be_gone": 2000, "c13_empty_at_quiescence": 1500, "c13_sweep_count": 1500,
+                                  "c13_injected_sweep_failure": 300, "c13_real_lock_sweep_failure": 30, "sweep_failed_injected": 300}}),
     "C12": dict(module=H, level="exploration",
                 rule="Same engine, sweeps fired by the real TimerService on a virtual clock; every sweep judged by the must-survive oracle per mailbox.",
                 nontrivial_rule="a history counts if a sweep met a mailbox that had to survive; distinct by history hash.",
@@ -48,6 +76,12 @@ CHECKS = {
                 nontrivial_rule="a history counts if a blurred row was written; distinct by history hash.",
                 floors={"quick": {"c16_blur_bind": 100, "c16_blur_mailbox-close": 20, "c16_blur_nameplate-release": 20,
                                   "c16_blur_mailbox-pruned": 20, "c16_blur_nameplate-pruned": 10}}),
+    "C17": dict(module=H, level="exploration",
+                rule="Directed product protocol-state x command (13 states x 31 commands, each followed by a ping probe, a list and the same command again), "
+                     "then random sequences with 35% malformed/out-of-order commands over hostile Unicode identifiers (NUL, combining marks, astral, quotes, SQL "
+                     "fragments, empty, 10 kB); every frame and every step judged by the per-connection protocol oracle written from docs/server-protocol.md.",
+                nontrivial_rule="a history counts if it contains a command classified as definitely rejected; distinct by history hash.",
+                floors={"quick": {"rejected_cmd": 2000, "ack_first": 20000, "ping_pong": 500, "welcome": 1000, "error_has_orig": 2000}}),
 }
 
 LEVEL_TEXT = ("Exploration by runtime monitoring: the real server code is executed on thousands of generated and directed "
